@@ -110,6 +110,7 @@ def gen(rng, n):
             step['env'] = dict(step['env'], TZ=rng.choice(['XST5XDT,M2.3.0,M11.1.0', 'XST-1XDT,M2.3.0/2,M10.5.0/3', 'UTC0']))
         scns.append(lay.scenario([step], extra=nodes + scen.canary()))
         metas.append({'days': days, 'ents': ents, 'orphans': orphans})
+        scns[-1]['judge_meta'] = {'days': days, 'ents': ents, 'orphans': [list(x) for x in orphans]}     # so that a replay judges the same entries
     return scns, metas
 
 
@@ -193,4 +194,8 @@ def replay(run, payload):
             ents.append({'td': e[1].split('/info/')[0], 'name': e[1].split('/info/')[1][:-10],
                          'dates': [l[13:] for l in e[2].split('\n') if l.startswith('DeletionDate=')]})
     a = [x for x in scn['steps'][0]['argv'] if x.isdigit()]
+    jm = scn.get('judge_meta')
+    if jm:
+        judge(run, scn, {'days': jm['days'], 'ents': jm['ents'], 'orphans': [tuple(x) for x in jm['orphans']]}, res)
+        return
     judge(run, scn, {'days': int(a[0]) if a else None, 'ents': ents, 'orphans': []}, res)
